@@ -106,12 +106,14 @@ def jsonModel (rows : List J) : String :=
 
 def linesSchema : String := "F2 x6e756d626572 Int x74657874 Str"
 
-/-- `lines <s<sephex>|-> c<contenthex>`; the model scans with the most fine-grained window growth (one byte per read) -/
+/-- `lines <s<sephex>|-> c<contenthex>`; the model scans with reads of 4096 bytes (any window-growth schedule
+    gives the same tokens: `Octo.C23.lines_split`; one byte per read is quadratic on big files) -/
 def linesTokens (sepTok contentTok : String) : Option (List Bytes) :=
   let content := parseHexBytes (contentTok.drop 1).toString
+  let sched := List.replicate (content.length / 4096 + 1) 4095
   let res :=
-    if sepTok == "-" then scanAll scanLines content []
-    else scanAll (splitFixed (parseHexBytes (sepTok.drop 1).toString)) content []
+    if sepTok == "-" then scanAll scanLines content sched
+    else scanAll (splitFixed (parseHexBytes (sepTok.drop 1).toString)) content sched
   match res with
   | .tokens ts => some ts
   | _ => none
